@@ -1980,6 +1980,9 @@ where
 
                 *empty = false;
 
+                // Whether a new chunk was already opened for this item
+                let mut chunked = false;
+
                 loop {
                     let result = self.invoker.process_read(&item, &mut *wb).await;
 
@@ -1999,6 +2002,21 @@ where
                                 } else {
                                     return Ok(false);
                                 }
+                            } else if chunked {
+                                // The item does not fit even in an otherwise empty chunk,
+                                // so sending yet another chunk would never terminate
+                                error!("Attribute data too large for a single message");
+
+                                let status = item
+                                    .as_ref()
+                                    .ok()
+                                    .and_then(|attr| attr.status(IMStatusCode::ResourceExhausted));
+                                if let Some(status) = status {
+                                    AttrResp::Status(status)
+                                        .to_tlv(&TLVTag::Anonymous, &mut *wb)?;
+                                }
+
+                                break;
                             } else {
                                 debug!("<<< No TX space, chunking >>>");
                                 if !self
@@ -2007,6 +2025,8 @@ where
                                 {
                                     return Ok(false);
                                 }
+
+                                chunked = true;
                             }
                         }
                         Err(err) => Err(err)?,
@@ -2143,6 +2163,9 @@ where
         attr.list_chunked = true;
         attr.list_index = Some(Nullable::new(list_index));
 
+        // Whether a new chunk was already opened for the current item
+        let mut chunked = false;
+
         loop {
             let pos = wb.get_tail();
 
@@ -2167,6 +2190,20 @@ where
 
                     list_index = Some(new_list_index);
                     attr.list_index = Some(Nullable::some(new_list_index));
+                    chunked = false;
+                }
+                Err(err) if err.code() == ErrorCode::NoSpace && chunked => {
+                    // The item does not fit even in an otherwise empty chunk,
+                    // so sending yet another chunk would never terminate
+                    error!("Array item too large for a single message");
+
+                    attr.list_chunked = false;
+                    attr.list_index = None;
+                    if let Some(status) = attr.status(IMStatusCode::ResourceExhausted) {
+                        AttrResp::Status(status).to_tlv(&TLVTag::Anonymous, &mut *wb)?;
+                    }
+
+                    break;
                 }
                 Err(err) if err.code() == ErrorCode::NoSpace => {
                     debug!("<<< No TX space, chunking >>>");
@@ -2176,6 +2213,8 @@ where
                     {
                         return Ok(false);
                     }
+
+                    chunked = true;
                 }
                 Err(err) if err.code() == ErrorCode::ConstraintError => break, // Got to the end of the array
                 Err(err) => Err(err)?,
